@@ -181,6 +181,36 @@ theorem rdiff_subset_diff (a b : SetTrie) (q : Path) (ha : a.wf = true) (hb : b.
         List.any_eq_true.2 ⟨q, hmem, hqb⟩
       simp [hqa, this] at h
 
+/-- every leaf is a member; a non-empty set has a leaf -/
+theorem leaves_subset (a : SetTrie) (q : Path) (ha : a.wf = true)
+    (h : has q (leaves a) = true) : has q a = true := by
+  rw [has_leaves a q ha] at h
+  cases hqa : has q a with
+  | true => rfl
+  | false => simp [hqa] at h
+theorem leaves_isEmpty_iff (a : SetTrie) (ha : a.wf = true) :
+    isEmpty (leaves a) = isEmpty a := by
+  cases hE : isEmpty a with
+  | false => exact SetTrie.not_isEmpty_leaves a ha hE
+  | true =>
+    cases hL : isEmpty (leaves a) with
+    | true => rfl
+    | false =>
+      obtain ⟨q, hq⟩ := SetTrie.exists_has_of_not_isEmpty _ (wf_leaves a ha) hL
+      have := leaves_subset a q ha hq
+      rw [SetTrie.has_of_isEmpty q a hE] at this
+      exact absurd this (by simp)
+/-- removing a set recursively from itself leaves nothing -/
+theorem rdiff_self (a : SetTrie) (ha : a.wf = true) : isEmpty (rdiff a a) = true := by
+  have hw := wf_rdiff a a ha ha
+  cases hE : isEmpty (rdiff a a) with
+  | true => rfl
+  | false =>
+    obtain ⟨q, hq⟩ := SetTrie.exists_has_of_not_isEmpty _ hw hE
+    have hd := rdiff_subset_diff a a q ha ha hq
+    rw [has_diff a a q ha ha] at hd
+    revert hd; cases has q a <;> simp
+
 /-! ### non-vacuity: the laws on concrete, overlapping, nested sets -/
 private def exA : SetTrie := ofPaths [[.field "a"], [.field "a", .index 1], [.key [("k", .str "x")], .field "b"]]
 private def exB : SetTrie := ofPaths [[.field "a", .index 1], [.value (.int 1)]]
